@@ -298,6 +298,8 @@ class FnTr:
                 return 'decide (%s %s %s)' % (ca, sym, cb), 'Bool'
             if isinstance(op, ast.Eq) and cls_of(ta) == 'Elem' and ta == tb and 'eqv' in self.spec.get('ops', {}):
                 return '(eqv %s %s)' % (ca, cb), 'Bool'         # Python `==` on items: the declared operation
+            if isinstance(op, ast.NotEq) and cls_of(ta) == 'Elem' and ta == tb and 'eqv' in self.spec.get('ops', {}):
+                return '(!(eqv %s %s))' % (ca, cb), 'Bool'      # `!=` on items: the negation of the declared `==`
             raise Unsupported(e, 'comparison of %s and %s' % (ta, tb))
         if isinstance(e, ast.BinOp):
             if isinstance(e.op, ast.Mult) and isinstance(e.left, ast.List) and len(e.left.elts) == 1:
@@ -404,7 +406,9 @@ class FnTr:
         if isinstance(s, ast.Continue) and loop is not None:
             return loop[0](p)
         if isinstance(s, ast.Break) and loop is not None:
-            return self.block(loop[1], p, None)
+            pb = p.copy()
+            pb.scope = [v for v in p.scope if v in loop[2]]      # names bound in the body are dropped (conservative)
+            return self.block(loop[1], pb, None)
         if isinstance(s, ast.Expr) and isinstance(s.value, ast.Yield) and self.gen and s.value.value is not None:
             code, t = self.expr(s.value.value, p, self.R)
             if lean_ty(t) != lean_ty(self.R):
@@ -679,14 +683,15 @@ class FnTr:
         return '(match %s with\n| some _v =>\n%s\n| none =>\n%s)' % (ckw, ind(a), ind(b))
 
     def loop(self, s, rest, p):
-        """ONE loop per function: a recursive definition over the item list (`for`) or over the fuel (`while`); its
-        parameters are the names bound at loop entry, in binding order"""
-        if self.loops:
-            if id(s) in self.loops and self.loops[id(s)][1] == p.scope:
-                name, vs = self.loops[id(s)]
-                return self.loop_call(s, name, vs, p)
-            raise Unsupported(s, 'a second loop, or the loop is reached with different sets of bound names')
-        name = '%s.loop1' % self.name
+        """a loop (not nested in another): a recursive definition over the item list (`for`) or over the fuel (`while`);
+        its parameters are the names bound at loop entry, in binding order.  A `for` over a declared iterator consumes
+        it: inside the body and after a `break` the iterator holds the items not reached yet, after exhaustion none"""
+        if id(s) in self.loops:
+            name, vs = self.loops[id(s)]
+            if vs != p.scope:
+                raise Unsupported(s, 'the loop is reached with different sets of bound names')
+            return self.loop_call(s, name, vs, p)
+        name = '%s.loop%d' % (self.name, len(self.loops) + 1)
         vs = list(p.scope)
         self.loops[id(s)] = (name, vs)
         tys = [lean_ty(self.ty(v, p, s)) for v in vs]
@@ -716,14 +721,17 @@ class FnTr:
             qb.bind(tgt)
             qb.types[tgt] = item
             cont = lambda pp: '%s _rest %s' % (name, ' '.join(vs))
-            body = self.block(s.body, qb, (cont, rest))
+            body = self.block(s.body, qb, (cont, rest, vs))
+            if cls_of(ti) == 'Iter':
+                after = 'let %s : %s := []\n' % (s.iter.id, lean_ty(ti)) + after
+                body = 'let %s : %s := _rest\n' % (s.iter.id, lean_ty(ti)) + body
             self.defs.append('def %s %s: List %s → %s → Except %s.Err %s\n  | [], %s =>\n%s\n  | %s :: _rest, %s =>\n%s\n' % (
                 name, self.binder, paren(item), ' → '.join(paren(t) for t in tys), RT, paren(self.result_ty()),
                 pats, ind(after, 2), tgt, pats, ind(body, 2)))
         else:
             cont = lambda pp: '%s _fuel %s' % (name, ' '.join(vs))
             t = self.simplify(s.test, q)
-            body = self.block(s.body, q.copy(), (cont, rest))
+            body = self.block(s.body, q.copy(), (cont, rest, vs))
             if t is False:
                 raise Unsupported(s, 'while False')
             if t is not True:
